@@ -123,7 +123,7 @@ def _err_blocks(body):
     return out
 
 
-def _moved_to(body, l):
+def _moved_to(body, l, err_preserving=False):
     """locals the whole value of `l` is moved / copied into (a spliced helper hands its result on through such moves)"""
     out, work = {l}, [l]
     while work:
@@ -134,6 +134,14 @@ def _moved_to(body, l):
                 if pl and pl[0] == a and not pl[1] and node["lhs"][0] not in out:
                     out.add(node["lhs"][0])
                     work.append(node["lhs"][0])
+            elif i == R.TERM and how == "arg" and node["k"] == "call" and "fn" in node and err_preserving:
+                # `.map(..)`, `.inspect_err(..)`, `.map_err(..)`, `.and_then(..)` on a Result keep an Err an Err
+                c = Callee(node["fn"])
+                a0 = op_place(node["args"][0]) if node["args"] else None
+                if a0 and a0[0] == a and not a0[1] and "Result" in c.path and c.path.split("::")[-1] in ("map", "inspect_err", "inspect", "map_err", "and_then") \
+                        and not node["dest"][1] and node["dest"][0] not in out:
+                    out.add(node["dest"][0])
+                    work.append(node["dest"][0])
     return out
 
 
@@ -153,7 +161,7 @@ def option_none_fate(prog, body, opt_local, depth=6):
                 last = c.path.split("::")[-1]
                 a0 = op_place(node["args"][0]) if node["args"] else None
                 if a0 and a0[0] == a and last in ("ok_or", "ok_or_else"):
-                    rs = _moved_to(body, node["dest"][0])
+                    rs = _moved_to(body, node["dest"][0], err_preserving=True)
                     brk = any(R.try_break_edges(body, r) for r in rs)
                     if brk or (rs & body.ret_locals):
                         verdicts.append(("err", f".{last}(..)?"))
